@@ -1115,12 +1115,39 @@ impl<'ast, 'res> Resolver<'ast, 'res> {
         }
     }
 
+    /// True when the expression's type is only known at run time. A value that does not fit
+    /// the operation consuming it is then reported as a runtime error, i.e. the operation can trap.
+    fn is_dynamically_typed(&self, expr: ExprRef<'ast>) -> bool {
+        !matches!(self.infer_expr_type(expr), Some(ty) if ty != ValueType::Dynamic)
+    }
+
+    /// True when `name` resolves to a variable of an enclosing function. Such a read can run
+    /// before the variable's `make` statement (hoisted call), which is a runtime error.
+    fn is_captured_variable(&self, name: &str) -> bool {
+        self.lookup_var_info(name)
+            .is_some_and(|(_, local)| self.facts.locals[local.0 as usize].owner != self.current_owner)
+    }
+
     fn classify_expr(&self, expr: ExprRef<'ast>) -> ExprClass {
         match expr {
-            Expr::Number(..) | Expr::Bool(..) | Expr::Null(..) | Expr::Var(..) => {
-                ExprClass::PureNoTrap
+            Expr::Number(..) | Expr::Bool(..) | Expr::Null(..) => ExprClass::PureNoTrap,
+            Expr::Var(name, ..) => {
+                if self.is_captured_variable(name) {
+                    ExprClass::PureMayTrap
+                } else {
+                    ExprClass::PureNoTrap
+                }
             }
-            Expr::String { .. } => ExprClass::PureNoTrap,
+            Expr::String { parts, .. } => match parts {
+                StringParts::Interpolated(segments)
+                    if segments.iter().any(|segment| {
+                        matches!(segment, StringSegment::Variable(name) if self.is_captured_variable(name))
+                    }) =>
+                {
+                    ExprClass::PureMayTrap
+                }
+                _ => ExprClass::PureNoTrap,
+            },
             Expr::Array { elements, .. } => {
                 elements.iter().fold(ExprClass::PureNoTrap, |class, element| {
                     class.join(self.classify_expr(element))
@@ -1132,24 +1159,41 @@ impl<'ast, 'res> Resolver<'ast, 'res> {
                 .join(ExprClass::PureMayTrap),
             Expr::Binary { op, lhs, rhs, .. } => {
                 let class = self.classify_expr(lhs).join(self.classify_expr(rhs));
-                if matches!(op, BinaryOp::Divide | BinaryOp::Mod) {
+                if matches!(op, BinaryOp::Divide | BinaryOp::Mod)
+                    || self.is_dynamically_typed(lhs)
+                    || self.is_dynamically_typed(rhs)
+                {
                     class.join(ExprClass::PureMayTrap)
                 } else {
                     class
                 }
             }
-            Expr::Unary { expr, .. } => self.classify_expr(expr),
-            Expr::Member { object, .. } => self.classify_expr(object),
+            Expr::Unary { expr, .. } => {
+                let class = self.classify_expr(expr);
+                if self.is_dynamically_typed(expr) {
+                    class.join(ExprClass::PureMayTrap)
+                } else {
+                    class
+                }
+            }
+            // A member access that is not called is a runtime type mismatch.
+            Expr::Member { object, .. } => {
+                self.classify_expr(object).join(ExprClass::PureMayTrap)
+            }
             Expr::Call { callee, args, .. } => {
                 let mut class = args
                     .args
                     .iter()
                     .fold(ExprClass::PureNoTrap, |class, arg| class.join(self.classify_expr(arg)));
+                let dynamic_arg = args.args.iter().any(|arg| self.is_dynamically_typed(arg));
 
                 match callee {
                     Expr::Var(func_name, ..) => {
                         if let Some(builtin) = GlobalBuiltin::from_name(func_name) {
                             class = class.join(effects::global_builtin_class(builtin));
+                            if matches!(builtin, GlobalBuiltin::Command) && dynamic_arg {
+                                class = class.join(ExprClass::PureMayTrap);
+                            }
                         } else if self.lookup_func(func_name).is_none() {
                             class = class.join(ExprClass::Impure);
                         }
@@ -1160,6 +1204,11 @@ impl<'ast, 'res> Resolver<'ast, 'res> {
                             class = class.join(effects::member_builtin_class(builtin));
                         } else {
                             class = class.join(ExprClass::Impure);
+                        }
+                        // The receiver's and the arguments' types (and the arity) are only
+                        // validated at run time unless they are statically known.
+                        if dynamic_arg || self.is_dynamically_typed(object) {
+                            class = class.join(ExprClass::PureMayTrap);
                         }
                     }
                     _ => class = class.join(ExprClass::Impure),
